@@ -365,6 +365,7 @@ inductive Op
   | run                       -- run spawned tasks until none is runnable
   | tick (ms : Nat)
   | mark                      -- start of the drain phase (no effect on the state)
+  | shutdown                  -- the runtime hosting the spawned tasks is shut down: every task is dropped
 deriving Repr, DecidableEq
 
 def setConn (s : State) (c : ConnId) (f : Conn → Conn) : State :=
@@ -432,6 +433,28 @@ def runAll : Nat → State → State
     | [] => s
     | i :: q => runAll fuel (runTask { s with runq := q } i)
 
+/-- A spawned task is dropped before it finished (its runtime is shut down). A `WhenReady` whose
+    connection never reported ready drops the handle (`WhenReady::drop` returns only a connection that
+    became ready); a delayed-drop checkout is dropped like any dialing checkout: it cancels the marker
+    if it is still the owner. -/
+def abortTask (s : State) (i : Nat) : State :=
+  match taskOf s i with
+  | none => s
+  | some (.whenReady c _ _) => { (removeTask s i) with dropped := c :: s.dropped }
+  | some (.delayed r) =>
+    match s.co r with
+    | none => removeTask s i
+    | some c =>
+      let s := cancelIfOwner (removeTask s i) c
+      { s with co := upd s.co r (some { c with marker := false }) }
+
+def abortAll : Nat → State → State
+  | 0, s => s
+  | fuel + 1, s =>
+    match s.tasks with
+    | [] => { s with runq := [] }
+    | (i, _) :: _ => abortAll fuel (abortTask s i)
+
 def step (s : State) : Op → State × Obs
   | .issue r k mux =>
     match s.co r with
@@ -481,6 +504,7 @@ def step (s : State) : Op → State × Obs
   | .tick ms => ({ s with now := s.now + ms }, .done)
   | .run => (runAll (2 * (s.tasks.length + s.runq.length) + 8) s, .done)
   | .mark => (s, .done)
+  | .shutdown => (abortAll (s.tasks.length + 1) s, .done)
 
 def run (s : State) : List Op → State × List Obs
   | [] => (s, [])
